@@ -458,6 +458,22 @@ fn rat_case() -> impl Strategy<Value = RatCase> {
             let nb = [1u64, 10, 24, 53, 64, 65, 128, 200, 1100][r.below(9) as usize];
             let db = [1u64, 10, 24, 53, 64, 65, 128, 200, 1100][r.below(9) as usize];
             (rand_big(&mut r, nb), rand_big(&mut r, db) | BigUint::one())
+        } else if kind == 9 && qsel % 3 == 0 {
+            // far outside every float: m·2^z and m/2^z with z around the multiples of 2^15 and 2^16
+            // (exponents that wrap when they are narrowed to 16 bits land inside the float range again)
+            let zs = [32767u64, 32768, 32769, 65535, 65536, 65537, 65536 + 100, 98304, 131072, 131073, 65536 - 1074, 65536 + 1023];
+            let z = zs[(fsel as usize) % zs.len()];
+            let m = match mpat % 4 {
+                0 => BigUint::one(),
+                1 => BigUint::from(3u8),
+                2 => BigUint::from(5u8),
+                _ => BigUint::from((r.next() | 1) & 0xff_ffff),
+            };
+            if fsel & 0x100 == 0 {
+                (m << z as usize, BigUint::one())
+            } else {
+                (m, BigUint::one() << z as usize)
+            }
         } else {
             let (n, d, _) = near_value(if f64_ { F64 } else { F32 }, qsel, mpat, fsel, seed, false);
             (n, d)
